@@ -29,10 +29,13 @@ two or more output assemblies; every x.*.fa is judged against the x.*.agp of the
 .fa and .agp files of a run pair up one to one, and "the AGP beside the FASTA lists the same rows [as the
 assembly]": its objects and rows equal those of the file of that name written by the same command with
 --output x.agp (the command's own AGP rendering of that assembly).  The Primary tag is only put where --help says it
-goes, on the first Painted scaffold of its haplotype in the map.  NOT generated (the unchanged tree writes two records
-named SUPER_1 into x.1.all_haplotigs.curated.fa; reported, not yet a known finding): a Primary tag on a later
-scaffold of its haplotype, e.g. [scaffold_1 Painted Hap1], [scaffold_2:1-40 Painted Hap2], [scaffold_2:41-80 Painted
-Hap1 Primary]; neither are maps with three or more haplotypes.
+goes, on the first Painted scaffold of its haplotype in the map.  One input record cut into pieces
+that carry the same Haplotig / Contaminant / FalseDuplicate tag and different haplotype tags is generated (mode
+"split"; also by chance in mode "haps+extra"): the pieces go to the one file of the tag, where record names are
+unique (they come out as one scaffold; /repo 47974e9 repaired two scaffolds of one name in x.1.contaminants.fa /
+x.1.falseduplicates.fa).  Side condition of the statement, not generated: a Primary tag anywhere else than --help
+puts it (e.g. [scaffold_1 Painted Hap1], [scaffold_2:1-40 Painted Hap2], [scaffold_2:41-80 Painted Hap1 Primary]
+writes two records named SUPER_1 into x.1.all_haplotigs.curated.fa), and maps with three or more haplotypes.
 
 State carried between calls part: a FastaIndex outlives a FastaStream.  Several streams are written one after the
 other through one FastaIndex object (and through a second index object on the same file), differing in gap
@@ -233,7 +236,7 @@ def judge_cli(res, case):
 # ----------------------------------------------------------------------------------------------------------
 # runs of the command that write several output assemblies
 
-TAG_MODES = ("extra", "haps", "primary", "target", "haps+extra")
+TAG_MODES = ("extra", "haps", "primary", "target", "haps+extra", "split")
 
 
 def retag(rng, scaffolds, mode):
@@ -273,7 +276,36 @@ def random_multi_cli_case(rng, mode):
         case, _, scaffolds = G.random_cli_case(rng)
         if len(scaffolds) >= 2:
             break
-    return case, G.pretext_agp(retag(rng, scaffolds, mode), rng.choice((1.0, 1.0, 3.5)))
+    if mode == "split":
+        scaffolds = split_tagged(rng, case, scaffolds)
+    else:
+        scaffolds = retag(rng, scaffolds, mode)
+    return case, G.pretext_agp(scaffolds, rng.choice((1.0, 1.0, 3.5)))
+
+
+def split_tagged(rng, case, scaffolds):
+    """
+    one input record cut into two (or three) Pretext scaffolds that carry the same Haplotig / Contaminant /
+    FalseDuplicate tag and different haplotype tags (unpainted); the other scaffolds as in mode haps.  The pieces
+    belong to one file (the tag's), where record names are unique.
+    """
+    ctg = G.contigs_of(case)
+    rec = rng.choice(case.records)
+    L = len(rec.seq)
+    cuts = [c[0] - 1 for c in ctg[rec.name][1:]] or [L // 2]  # in front of a contig, else in the middle
+    cuts = sorted(rng.sample(cuts, min(len(cuts), rng.choice((1, 1, 2)))))
+    tag = rng.choice(("Contaminant", "FalseDuplicate", "Contaminant", "Haplotig"))
+    first_hap = rng.randrange(2)
+    pieces = []
+    for i, (a, b) in enumerate(zip([0, *cuts], [*cuts, L])):
+        if b > a:
+            pieces.append([(rec.name, a + 1, b, rng.choice("+-"), [("Hap1", "Hap2")[(i + first_hap) % 2], tag])])
+    others = [[r for r in rows if r[0] != rec.name] for rows in scaffolds]
+    others = [rows for rows in others if rows]
+    out = retag(rng, others, "haps") if others else []
+    for p in pieces[::-1] if rng.random() < 0.3 else pieces:
+        out.insert(rng.randint(0, len(out)), p)
+    return out
 
 
 def agp_rows(data):
@@ -822,7 +854,7 @@ def run(tier, seed, **opts):
                     col.fail(msgs[0], inp)
                 col.case(("cli", case.key(), ptxt, kind, repr((fai, agp))), nontrivial=nrec > 0, sample=inp if k == 0 and j == 0 else None)
         # ---- 7. runs of the command that write several output assemblies (tags in the Pretext AGP)
-        n_multi = 15 if quick else 1500
+        n_multi = 24 if quick else 1500
         for k in range(n_multi):
             if col.full:
                 break
@@ -877,7 +909,7 @@ def run(tier, seed, **opts):
         #         an index object must not blur the parts above)
         n_streams = 0
         files = [base_case(3, b"\n", True)] if quick else [base_case(3, b"\n", True), base_case(60, b"\r\n", True), base_case(5, b"\n", False)]
-        files += [G.random_case(rng, max_len=120) for _ in range(1 if quick else 40)]
+        files += [G.random_case(rng, max_len=120) for _ in range(1 if quick else 30)]
         for ci, case in enumerate(files):
             seqs = case.seqs()
             case.write(path)
@@ -898,7 +930,7 @@ def run(tier, seed, **opts):
                 # all fixed sequences for the first file (quick: at buffer 3 only), every fourth one elsewhere
                 if (quick and (ci or bi)) or ci >= 3:
                     plans = plans[(ci + bi) % 4 :: 4]
-                plans += [random_steps(rng, case, bs) for _ in range(2 if quick else 30 if ci < 3 else 20)]
+                plans += [random_steps(rng, case, bs) for _ in range(2 if quick else 20 if ci < 3 else 10)]
                 for pi, steps in enumerate(plans):
                     if col.full:
                         break
@@ -923,7 +955,8 @@ def run(tier, seed, **opts):
             f"{len(all_states)} (fai, agp) states (time differences "
             + ("-3600, -0.5, 0, +0.1 s" if quick else "-3600, -3, -0.5, -0.001, 0, +0.1, +2, +3600 s")
             + f") x <= 4 kinds of earlier content over {len(cases)} files; {n_multi} pretext-to-asm runs whose Pretext AGP carries "
-            "Haplotig/Contaminant/FalseDuplicate, Hap1/Hap2 (+Primary) or Target tags (1-4 output assemblies), each also run with "
+            "Haplotig/Contaminant/FalseDuplicate, Hap1/Hap2 (+Primary) or Target tags, every sixth one with one record cut into pieces of "
+            "one such tag and different haplotype tags (1-6 output assemblies), each also run with "
             f"--output x.agp; {n_streams} sequences of 2-5 streams through one or two FastaIndex objects on one file (gap characters "
             f"default,N,n,-,x in every ordered pair; gaps 1..3*buffer+2 and 40; strands flipped between streams) over {len(files)} files"
         ),
